@@ -348,7 +348,7 @@ def nontrivial(case):
 def gen_all(ctx):
     rng = ctx.rng
     q = ctx.quick()
-    n_stats, n_x2, n_x3 = (220, 330, 60) if q else (2200, 3300, 500)
+    n_stats, n_x2, n_x3 = (160, 260, 50) if q else (1600, 2400, 400)
     cases = []
     for i in range(n_stats):
         cases.append(gen_case(rng, i, 'stats'))
